@@ -180,7 +180,17 @@ def _row_labels(nrows, dup_index):
     return [7] * nrows if dup_index else [10 + 3 * r for r in range(nrows)]
 
 
-def _body_std(cols, nrows, mode, dup_index=False):
+def _other_options(kw, neg):
+    """the same call with every option that selects a standardisation variant changed - used as an EARLIER call on the same cells"""
+    pre = dict(kw)
+    for b in ("tcr_enforce_functional", "strict_cdr3_standardization"):
+        pre[b] = neg(kw[b])
+    for p_ in ("tcr_precision", "mhc_precision"):
+        pre[p_] = "gene" if kw.get(p_) == "allele" else "allele"
+    return pre
+
+
+def _body_std(cols, nrows, mode, dup_index=False, prior=False):
     """mode: 'std' | 'nostd' | 'mapper' | 'df_old' | 'both' | 'neither'"""
     def body():
         from pyrepseq import io
@@ -217,6 +227,9 @@ def _body_std(cols, nrows, mode, dup_index=False):
             except ValueError:
                 return True
             return False, f"df/df_old exclusivity: no ValueError in mode {mode}"
+        if prior:       # an earlier call on the same cells with other options must leave no trace in this one
+            from vlib import symops as _so
+            io.standardize_dataframe(df.copy(), **_other_options(kw, _so.b_not))
         out = io.standardize_dataframe(df_old=df, **kw) if mode == "df_old" else io.standardize_dataframe(df, **kw)
         # 1. the caller's table is untouched
         if df._names != before_names or df._index != before_index:
@@ -252,7 +265,7 @@ def _body_std(cols, nrows, mode, dup_index=False):
     return body
 
 
-def _replay_std(cols, nrows, mode, dup_index=False):
+def _replay_std(cols, nrows, mode, dup_index=False, prior=False):
     def replay(inputs):
         # real pandas; tidytcells (whose answers are outside the claim) is replaced by a recorder so that the documented call
         # per cell can be observed; a second run with the real tidytcells checks what does not depend on its answers
@@ -298,6 +311,8 @@ def _replay_std(cols, nrows, mode, dup_index=False):
                     except ValueError:
                         continue
                     return False, "no ValueError"
+                if prior:
+                    io.standardize_dataframe(df.copy(deep=True), **_other_options(kw, lambda b: not b))
                 out = io.standardize_dataframe(df_old=df, **kw) if mode == "df_old" else io.standardize_dataframe(df, **kw)
             finally:
                 io.tt = real_tt
@@ -434,6 +449,10 @@ def conditions(tier):
         out.append(Condition(f"C18/standardize_dataframe/{name}/{mode}/rows=2/repeated-row-labels", _body_std(sets[name], 2, mode, True),
                              _replay_std(sets[name], 2, mode, True), budget=600, models=M,
                              bounds=f"columns {sets[name]}+extra, 2 rows carrying the SAME row label, symbolic missing cells, mode {mode}"))
+    for name in ("one", "mhcb", "mixed"):
+        out.append(Condition(f"C18/standardize_dataframe/{name}/std/rows=1/after-a-call-with-other-options", _body_std(sets[name], 1, "std", False, True),
+                             _replay_std(sets[name], 1, "std", False, True), budget=600, models=M,
+                             bounds=f"columns {sets[name]}+extra, 1 row; the same cells were standardised before with the opposite functionality / strictness / precision options"))
     for mode in ("both", "neither"):
         out.append(Condition(f"C18/standardize_dataframe/{mode}", _body_std(["TRBV"], 1, mode), _replay_std(["TRBV"], 1, mode), budget=60,
                              models=M, bounds=f"df/df_old {mode}"))
